@@ -4401,6 +4401,25 @@ where
   }
 
   fn visit_value(&mut self, value: &token::Value<'a>) -> visitor::Result<Error<T>> {
+    // .lt .le .gt .ge .ne compare numbers by value, whatever the class (unsigned,
+    // negative, floating point) of the literal and of the data item
+    if let (Some(ctrl), Some(rhs)) = (self.state.ctrl, Numeric::from_literal(value)) {
+      let lhs = match &self.cbor {
+        Value::Integer(i) => Some(Numeric::Int(i128::from(*i))),
+        Value::Float(f) => Some(Numeric::Float(*f)),
+        _ => None,
+      };
+      if let Some(holds) = lhs.and_then(|lhs| lhs.satisfies(ctrl, rhs)) {
+        if !holds {
+          self.add_error(format!(
+            "expected value {} {}, got {:?}",
+            ctrl, value, self.cbor
+          ));
+        }
+        return Ok(());
+      }
+    }
+
     let error: Option<String> = match &self.cbor {
       Value::Integer(i) => match value {
         token::Value::INT(v) => match &self.state.ctrl {
